@@ -152,6 +152,10 @@ pub assume_specification<T> [<[T]>::split_last_mut] (s: &mut [T]) -> (r: Option<
 pub assume_specification<T> [core::mem::replace] (dest: &mut T, src: T) -> (r: T)
     ensures r == *old(dest), *final(dest) == src;
 
+pub assume_specification [usize::div_ceil] (a: usize, b: usize) -> (r: usize)
+    requires b > 0
+    ensures r as int == (a as int + b as int - 1) / (b as int);
+
 // Deref of hybrid-array's Array to a slice (used by `copy_from_slice(&block)` etc.)
 impl<T, U: ArraySize> core::ops::Deref for Array<T, U> {
     type Target = [T];
